@@ -6,9 +6,12 @@ satisfying the decidable predicate `WF` (not only the two shipped sets): they ar
 schema as the quantified object. The text the generator EMITS for the `serialize` / `size` bodies of a
 struct class is the rendering of an abstract program (`Model/Codec/EmissionSem.lean`,
 `serialize_text_is_render`, `size_text_is_render`), and running that program on an object computes
-exactly what the interpreter computes (`emitted_serialize_eq_encode`, `emitted_size_eq_size`). For
-`deserialize` the tie is still execution (harness/c15.py: random schemas compiled by the real generator
-and run against the driver).
+exactly what the interpreter computes (`emitted_serialize_eq_encode`, `emitted_size_eq_size`). The
+`deserialize` body is the rendering of an abstract program too (`deserialize_text_is_render`); for classes
+without a member laid out before its discriminant, with or without base class, whatever the interpreter
+decodes the emitted program returns (`emitted_deserialize_of_decode`). For the classes that read a member
+into a temporary buffer (6 shipped types) the tie is still execution (harness/c15.py: random schemas
+compiled by the real generator and run against the driver).
 "Generating twice gives identical text" is, at the modelled granularity, `generate_deterministic`.
 -/
 import SymbolVerif.Properties.C01
@@ -16,6 +19,7 @@ import SymbolVerif.Properties.C02
 import SymbolVerif.Properties.C03
 import SymbolVerif.Proofs.Codec.EmissionClass
 import SymbolVerif.Proofs.Codec.EmissionDesRender
+import SymbolVerif.Proofs.Codec.EmissionDesClass
 namespace SymbolVerif.C15
 open SymbolVerif SymbolVerif.Codec SymbolVerif.Bytes
 
@@ -143,7 +147,51 @@ theorem emitted_serialize_roundtrip (S : Schema) (T : String → Bytes → Bytes
       rwa [List.append_nil] at this
   · cases henc'
 
+/-! ### the emitted `deserialize` program
+
+`WFGD` (EmissionDes.lean) collects what the generator needs of a schema for the emitted `deserialize` to mean what
+the layout says (names written unmangled as locals, unsigned counts and sizes, the size member called `size`,
+own members of a derived class referring to own members only). `d.noUnion`: no member is laid out before its
+discriminant (the temporary-buffer mechanism is not covered by the theorem yet). -/
+
+/-- running the emitted `deserialize` of a concrete class -- `Base._deserialize(buffer, instance)` and the window it
+    returns, if the class has a base class, then the class's own member statements -- returns whatever the
+    interpreter's `decConcrete` decodes from the same bytes -/
+theorem emitted_deserialize_of_decode (S : Schema) (T : String → Bytes → Bytes) (rec : Rec) (hwf : WF S = true)
+    (hwgd : WFGD S = true) (ty : String) (d : StructDef) (hfind : S.find ty = some (.struct d))
+    (hnu : d.noUnion = true) (hnn : ∀ t b v, rec.dec t b = .ok v → v ≠ .none)
+    (cls : String) (payload : Bytes) (v : Val) (hdec : decConcrete S T rec cls d payload = .ok v) :
+    emittedDeserialize S T rec cls d payload = .ok v :=
+  emittedDeserialize_of_dec hwf hwgd hfind hnu hnn hdec
+
+/-- with the recursion closed by fuel: what `decode` reads for a concrete class, the emitted `deserialize` returns -/
+theorem emitted_deserialize_decode (S : Schema) (T : String → Bytes → Bytes) (hwf : WF S = true) (hwgd : WFGD S = true)
+    (ty : String) (d : StructDef) (hfind : S.find ty = some (.struct d)) (hconc : d.abstract = false)
+    (hnu : d.noUnion = true) (n : Nat) (payload : Bytes) (v : Val)
+    (hdec : (recN S T (n + 1)).dec ty payload = .ok v) :
+    emittedDeserialize S T (recN S T n) ty d payload = .ok v := by
+  have hdec' : decTypeStep S T (recN S T n) ty payload = .ok v := hdec
+  unfold decTypeStep at hdec'
+  simp only [hfind, hconc, Bool.false_eq_true, if_false] at hdec'
+  exact emittedDeserialize_of_dec hwf hwgd hfind hnu (recN_dec_ne_none S T n) hdec'
+
+/-- the emitted `serialize` and `deserialize` round-trip: for an admissible object that encodes, the emitted
+    `deserialize` reads the object back from what the emitted `serialize` returns, also with trailing bytes -/
+theorem emitted_roundtrip (S : Schema) (T : String → Bytes → Bytes) (hwf : WF S = true) (hwg : WFG S = true)
+    (hwgd : WFGD S = true) (ty : String) (d : StructDef) (hfind : S.find ty = some (.struct d))
+    (hconc : d.abstract = false) (hnu : d.noUnion = true) (vs : List (String × Val)) (b : Bytes) (n : Nat)
+    (henc : (recN S T (n + 1)).enc ty (.struct ty vs) = .ok b) (hadm : admN S T (n + 1) ty (.struct ty vs) = true)
+    (hobj : pyObjOk d vs = true) (tail : Bytes) :
+    emittedSerialize S T (recN S T n) d vs = .ok b ∧
+      emittedDeserialize S T (recN S T n) ty d (b ++ tail) = .ok (.struct ty vs) := by
+  refine ⟨(emitted_serialize_roundtrip S T hwf hwg ty d hfind hconc vs b n henc hadm hobj).1, ?_⟩
+  exact emitted_deserialize_decode S T hwf hwgd ty d hfind hconc hnu n _ _ ((C01.roundtrip (T := T) hwf henc hadm).2 tail)
+
 theorem symbol_wfg : WFG Generated.Symbol.schema = true := by decide +kernel
+
+theorem symbol_wfgd : WFGD Generated.Symbol.schema = true := by decide +kernel
+
+theorem nem_wfgd : WFGD Generated.Nem.schema = true := by decide +kernel
 
 theorem nem_wfg : WFG Generated.Nem.schema = true := by decide +kernel
 
@@ -212,6 +260,61 @@ example :
         sameBytes (encStruct taggedSchema C01.Examples.idT r d taggedObject) (.ok [1, 5, 0, 9]) &&
         sameBytes (emittedSerialize taggedSchema C01.Examples.idT r d taggedObject) (.ok [1, 5, 0, 9]) &&
         (renderSer (emitSerialize taggedSchema d)).contains "if 1 == self.type_:"
+      | _ => false) = true := by decide +kernel
+
+/-! non-vacuity of the `deserialize` theorem on shipped types (base class with size member / without, counted,
+    sized-aligned and fill arrays, conditions after their discriminant): the hypotheses hold, and the emitted program
+    reads the encoding (with trailing bytes) back to an object with the same encoding -/
+def emittedReads (S : Schema) (v : Val) (tail : Bytes) : Bool :=
+  match v with
+  | .struct ty _ =>
+    (match S.find ty with
+      | some (.struct d) =>
+        let r := recN S C01.Examples.idT (defaultFuel S)
+        let b := C01.Examples.bytesOf S ty v
+        d.noUnion && !d.abstract && !b.isEmpty &&
+          (match emittedDeserialize S C01.Examples.idT r ty d (b ++ tail), decConcrete S C01.Examples.idT r ty d (b ++ tail) with
+            | .ok v1, .ok v2 => sameBytes (encode S C01.Examples.idT ty v1) (.ok b) && sameBytes (encode S C01.Examples.idT ty v2) (.ok b)
+            | _, _ => false)
+      | _ => false)
+  | _ => false
+
+example : emittedReads Generated.Symbol.schema C01.Examples.transfer [7, 7, 7] = true := by decide +kernel
+example : emittedReads Generated.Symbol.schema C01.Examples.aggregate [1] = true := by decide +kernel
+example : emittedReads Generated.Nem.schema (C01.Examples.nemMultisig C01.Examples.nemMsg) [] = true := by decide +kernel
+
+/-! a finding of the generator (replayed on the real generator; not reachable from the shipped schemas, whose size
+    members are all called `size`): `_deserialize` of an abstract class returns the window `(size_ - len(buffer), size_)`,
+    and `size_` is the value of the size member only if that member is called `size` -- otherwise it is `len(buffer)`,
+    the length of everything that was passed in. With `@size(total_size)` the derived class then reads its own members
+    from the wrong place as soon as the buffer continues after the object. The emission model reproduces the text; the
+    layout interpreter reads the object. `WFGD` excludes the schema. -/
+def sizeNameSchema : Schema := [
+  ("Leaf", .struct { fields := [{ name := "amount", kind := .int 2 false }] }),
+  ("Entity", .struct { abstract := true, disc := ["tag"], fields := [
+    { name := "total_size", kind := .sizeF 4 },
+    { name := "tag", kind := .int 2 false }] }),
+  ("Child", .struct { base := some "Entity", inherited := 2, discValues := [7], fields := [
+    { name := "total_size", kind := .sizeF 4 },
+    { name := "tag", kind := .int 2 false },
+    { name := "pay", kind := .int 1 false },
+    { name := "trailing", kind := .array "Leaf" .fill 0 true none }] })]
+
+/-- `Child(pay = 5, trailing = [Leaf(0x0102)])` followed by four bytes `9`: the interpreter reads the object, the emitted
+    `deserialize` (as the real one) reads `pay = 9` and a `Leaf(0x0909)` -/
+example :
+    (match sizeNameSchema.find "Child" with
+      | some (.struct d) =>
+        let r := recN sizeNameSchema C01.Examples.idT 3
+        let payload : Bytes := [9, 0, 0, 0, 7, 0, 5, 2, 1, 9, 9, 9, 9]
+        WF sizeNameSchema && !WFGD sizeNameSchema &&
+        (match decConcrete sizeNameSchema C01.Examples.idT r "Child" d payload, emittedDeserialize sizeNameSchema C01.Examples.idT r "Child" d payload with
+          | .ok v1, .ok v2 =>
+            sameBytes (encode sizeNameSchema C01.Examples.idT "Child" v1) (.ok [9, 0, 0, 0, 7, 0, 5, 2, 1]) &&
+            sameBytes (encode sizeNameSchema C01.Examples.idT "Child" v2) (.ok [9, 0, 0, 0, 7, 0, 9, 9, 9])
+          | _, _ => false) &&
+        (renderItems (emitDeserialize sizeNameSchema
+          (match sizeNameSchema.find "Entity" with | some (.struct da) => da | _ => default))).contains "buffer = buffer[4:total_size]"
       | _ => false) = true := by decide +kernel
 
 end SymbolVerif.C15
